@@ -48,7 +48,15 @@ namespace Docstring
 objects.  Every call returns — for every behaviour of the parsers, `to_stan`, `to_node`, the colourisers, the
 summary walk and the toc builder — provided `extract_fields` is only called on objects that have a docstring
 (its documented precondition; the docstring of an object is never changed by a call, so the precondition is
-stated on the initial state). -/
+stated on the initial state).
+Scope (hunter round, 2026-09-28): "the colourisers" are the `to_stan` / `to_node` of a colourised value; the
+construction of that value (`colorize_pyval` / `colorize_inline_pyval`) is a total function of the model
+(`Env.annotation`, `constPd`, `bases`, `decorators`).  On the real code it could raise RecursionError for an
+expression of some 320 operands, outside every wrapper — found by the end-to-end oracle of
+harness/props/c01.py (`crash:RecursionError:writer.flattenToFile:_pyval_repr`), repaired in the colouriser
+itself by 0a8115c (`PyvalColorizer.colorize` catches it: truncated value + warning), which is what makes the
+totality assumed here true of the code for that case; it never was a counterexample to this theorem about
+the wrappers. -/
 theorem c01_render_run_total (env : Env) (ops : List (XOp × Obj)) (st : St)
     (hx : ∀ p ∈ ops, p.1 = .core .extract → (st.objs p.2).docstring ≠ none) :
     ∀ o ∈ (xrun env st ops).1, o.isOk = true :=
